@@ -20,16 +20,16 @@ checks = {
          "Whole destination validated after every explored call; simd-accel build is exercised by the thorough tier.", "§6 C05"),
  "C06": ("model_checking", X + " with guard bands, sub-minimum capacities, start alignments, String/Vec container checks; plus mem/validator/classifier sweeps under guard bands and panic capture",
          "Out-of-bounds writes are caught by canaries, panics by capture; out-of-bounds reads only by the ASan build of the thorough tier.", "§6 C06"),
- "C07": ("model_checking", X + "; at every reachable state every action is also executed with exactly the queried capacity; overflow ladder for monotonicity at every state",
+ "C07": ("model_checking", X + "; at every reachable state every action is also executed with exactly the queried capacity (however small); mixed-method runs make the query of one method in states only another sink / replacement mode reaches; overflow ladder for monotonicity at every state",
          "Covers all states reachable over the class alphabets in all three BOM modes; encoder side incl. if_no_unmappables.", "§6 C07"),
  "C08": ("model_checking", X + "; per-transition progress plus longest-path/positive-cycle analysis of the explored call graph with weight calls-4*read",
          "The bound calls <= 4n+16 is decided on the whole finite graph, not on sampled paths.", "§6 C08"),
- "C09": ("model_checking", X + "; per-call had_errors/had_unmappables classified against the reference; every complete history replayed as the documented manual procedure on the without-replacement method",
+ "C09": ("model_checking", X + "; per-call had_errors/had_unmappables classified against the reference; every complete history replayed as the documented manual procedure on the without-replacement method; plus exhaustive sweeps (C01 stream families and error-dense heads for decoders incl. the one-shot form, every scalar value and the NCR length ladder at every capacity for encoders) of with-replacement against manual procedure",
          "Twin comparison is implementation against implementation on identical chunk boundaries.", "§6 C09"),
  "C10": ("model_checking", X + " with the BOM mode in the configuration for all 40 encodings x 3 modes; Decoder::encoding() checked on every transition; for_bom swept over all strings of length <= 3",
          "BOM-byte symbols are offered while the stream is undecided; after a switch a reduced alphabet is used because the switched decoder's own space is explored by its nominal run.", "§6 C10"),
  "C11": ("exploration", S + ": one-shot decode*/encode against the streaming driver on run-length/position families up to 4 K", "Lengths beyond 4097 are not enumerated.", "§6 C11"),
- "C12": ("model_checking", X + " (encoder) with a real decoder of the same encoding in the product state fed with all output so far; has_pending_state vs reference shift state",
+ "C12": ("model_checking", X + " (encoder) with a real decoder of the same encoding in the product state fed with all output so far; has_pending_state vs reference shift state; plus the exhaustive round-trip sweep of every scalar value alone and between neighbours through all 40 encoders",
          "Without replacement the driver appends the NCR itself (documented manual procedure), otherwise two escape sequences in a row would be an artefact of the driver.", "§6 C12"),
  "C13": ("exploration", S + ": get-an-encoding over all short strings and the complete 1-edit / case / padding neighbourhood of all 228 labels", "Strings longer than the families are not enumerated.", "§6 C13"),
  "C14": ("exploration", S + ": validators vs std over core sequences x every prefix length x suffix x alignment, SIMD path on and off", "Lengths to 160; simd-accel build in the thorough tier.", "§6 C14"),
@@ -40,7 +40,7 @@ checks = {
  "C18": ("model_checking", X + " with every call executed under three destination pre-fills; mem sweeps likewise", "Miri pass over uninitialised capacity is part of the thorough tier.", "§6 C18"),
  "C19": ("model_checking", X + "; at every reachable (decoder, reference) state the query is made with ASCII runs of every length 0..N followed by every alphabet symbol",
          "None/Some requirement derived from the reference state; exactness and non-disturbance checked for every Some.", "§6 C19"),
- "C20": ("exploration", S + ": predicates vs behaviour of the same build over the complete separating space", "Finite space enumerated completely in both tiers.", "§6 C20"),
+ "C20": ("exploration", S + ": predicates vs behaviour of the same build over the complete separating space (all strings of length <= 2, all scalar values, ASCII also in non-ASCII / punctuation context from both source forms)", "Finite space enumerated completely in both tiers.", "§6 C20"),
 }
 
 engine_of = lambda lvl: "X" if lvl == "model_checking" else "S"
